@@ -103,9 +103,11 @@ func tTag(c context, s []byte) (context, int) {
 		// Only element.name decides below whether the text that follows is scanned as markup
 		// or as the body of a special element. Every other name that the element can have
 		// because of context joining must agree with it, or the escaper and the browser
-		// would parse that text differently in one of the branches.
+		// would parse that text differently in one of the branches. The body of a special element
+		// ends at the end tag of that element only, so two special elements agree only if they
+		// are the same element.
 		for _, name := range c.element.names {
-			if specialElements[name] != specialElements[c.element.name] {
+			if specialElements[name] != specialElements[c.element.name] || specialElements[name] && name != c.element.name {
 				_, err := sanitizerForElementContent(context{element: c.element})
 				if err == nil {
 					err = fmt.Errorf("conditional branches end in elements %q whose contents are parsed differently", c.element.names)
